@@ -75,7 +75,9 @@ class Concatenator(Transformer):
 
             reindexed_data_list.append(reindexed)
 
-        X_concat: DataArray = xr.concat(reindexed_data_list, dim=self.feature_name)
+        X_concat: DataArray = xr.concat(
+            reindexed_data_list, dim=self.feature_name, join="exact"
+        )
         self.coords_out = X_concat.coords[self.feature_name]
 
         return X_concat
